@@ -313,6 +313,10 @@ ares_status_t ares_init_by_options(ares_channel_t            *channel,
   }
 
   if (optmask & ARES_OPT_TIMEOUTMS) {
+    /* ARES_OPT_TIMEOUT is never kept in the channel's mask (it is converted to
+     * ARES_OPT_TIMEOUTMS): ares_save_options() would hand it out without
+     * filling in a value */
+    optmask &= ~(ARES_OPT_TIMEOUT);
     /* Apparently some integrations were passing -1 to tell c-ares to use
      * the default instead of just omitting the optmask */
     if (options->timeout <= 0) {
